@@ -898,6 +898,20 @@ func runScenarioOnce(id int, sc *scenario) bool {
 				inAll++
 			}
 		}
+		// every record must be reachable through each of its labels (RecordLabels rows), not only
+		// through the Records table: count this request's results of the queries name> , upload-part> ,
+		// upload-time>
+		var lab []string
+		for _, key := range []string{"name", "upload-part", "upload-time"} {
+			rs, _ := s.search(key + ">")
+			n := 0
+			for _, r := range rs {
+				if r.uid == rq.uid {
+					n++
+				}
+			}
+			lab = append(lab, strconv.Itoa(n))
+		}
 		listed := false
 		for _, u := range after.list {
 			if rid != "-" && u.UploadID == rid {
@@ -932,8 +946,8 @@ func runScenarioOnce(id int, sc *scenario) bool {
 			}
 			stored = joinOr(st)
 		}
-		sobs = append(sobs, fmt.Sprintf("step=%d ok=%s vis=%d,%d,%d listed=%s inprog=%s earlier=%s idsok=%s stored=%s",
-			step, b01(resp.status == 200), len(byUID), inAll, max(own, 0), b01(listed), b01(inprog), b01(earlier), b01(idsOK(s.ffs.ids)), stored))
+		sobs = append(sobs, fmt.Sprintf("step=%d ok=%s vis=%d,%d,%d lab=%s listed=%s inprog=%s earlier=%s idsok=%s stored=%s",
+			step, b01(resp.status == 200), len(byUID), inAll, max(own, 0), strings.Join(lab, ","), b01(listed), b01(inprog), b01(earlier), b01(idsOK(s.ffs.ids)), stored))
 	}
 	var tl []string
 	for t := range tags {
@@ -1280,6 +1294,57 @@ func main() {
 			rq.cutAt = len(body) - 5 - g.r.Intn(60)
 		}
 		g.emit(g.wrap(rq, "midflush"))
+	}
+
+	// 4b. the 990-argument flush (248 pending label rows) falling inside or right before the LAST
+	// record of the upload: its remaining label rows are sent by Commit's final flush with no record row
+	// pending. L = labels per record (metadata + uid + extra labels + name) moves the boundary.
+	type flushCfg struct {
+		user, fname string
+		extra       int
+	}
+	cfgs := []flushCfg{{"user", "a.txt", 0}, {"", "a.txt", 0}, {"", "", 0}, {"user", "", 2}, {"user", "a.txt", 4}, {"", "a.txt", 9}}
+	flushCase := func(c flushCfg, n int) {
+		uid := g.uid()
+		var b strings.Builder
+		fmt.Fprintf(&b, "uid: %s\n", uid)
+		for e := 0; e < c.extra; e++ {
+			fmt.Fprintf(&b, "extra%d: v%d\n", e, e)
+		}
+		for j := 0; j < n; j++ {
+			fmt.Fprintf(&b, "BenchmarkR%d 1 %d ns/op\n", j, j) // distinct names: one record each
+		}
+		rq := reqSpec{cutAt: -1, uid: uid, parts: []partSpec{{form: "file", fname: c.fname, content: b.String()}}}
+		if c.fname == "" {
+			rq.parts[0].fnMode = 2
+		}
+		sc := &scenario{user: c.user, store: "local", tags: []string{"flush-boundary"}}
+		sc.reqs = append(sc.reqs, rq, goodReq(g.r, g.uid(), 1))
+		g.emit(sc)
+	}
+	for ci, c := range cfgs {
+		L := 3 + 1 + c.extra + 1 // upload, upload-part, upload-time, uid, extras, name
+		if c.user != "" {
+			L++
+		}
+		if c.fname != "" {
+			L++
+		}
+		if thorough {
+			for n := 35; n <= 130; n++ {
+				flushCase(c, n)
+			}
+			continue
+		}
+		if ci >= 4 {
+			continue
+		}
+		for j := 1; j <= 2+ci%2; j++ {
+			hit := 248*j/L + 1 // the flush boundary 248*j lies in the labels of record number `hit`
+			for n := hit - 1; n <= hit+1; n++ {
+				flushCase(c, n)
+			}
+		}
 	}
 
 	// 5. the clock: day changes between requests, also backwards (NewUpload then collides with an
